@@ -86,6 +86,7 @@ type ModelVal struct {
 	Tag  string `json:"tag"`
 	Kind string `json:"kind"`
 	Val  string `json:"val"`
+	Raw  string `json:"raw,omitempty"` // solver's value when Val was re-synthesised for native replay
 }
 
 type PathResult struct {
@@ -137,6 +138,9 @@ type Machine struct {
 	rpc       map[*Value]*rpcServer
 	httpS     *httpSide
 	protoMsgs []protoMsg
+	pinned    []ModelVal
+	pinnedOn  bool
+	pinPos    int
 	fs        map[string]*fsEnt
 	errNotExist Value
 }
